@@ -414,6 +414,20 @@ const AARCH64_REGISTERS: &[AArch64Register] = &[
     AArch64Register { name: "p31", bad64_reg: Reg::P31, bad64_full_reg: Reg::P31, bits: 16 },
 ];
 
+/// Verification hook: the (name, bits) of every scalar the register accessors of
+/// `AARCH64_REGISTERS` can produce (full-width registers other than the zero
+/// registers, which read as constants).
+#[cfg(falconre_falcon_verif)]
+pub fn verif_registers() -> Vec<(String, usize)> {
+    AARCH64_REGISTERS
+        .iter()
+        .filter(|register| {
+            register.is_full() && !matches!(register.bad64_reg, Reg::XZR | Reg::WZR)
+        })
+        .map(|register| (register.name.to_string(), register.bits))
+        .collect()
+}
+
 /// Takes a `bad64` register enum and returns a `AArch64Register`
 pub(super) fn get_register(bad64_reg: Reg) -> Result<&'static AArch64Register> {
     for register in AARCH64_REGISTERS.iter() {
